@@ -652,7 +652,7 @@ func ruleRegionsInfoDiscipline(c *Ctx) {
 	// peers hold either. The loops the removals sit in must range over a peer list that covers those classes
 	// (all peers cover both), and remove in every iteration.
 	needs := map[string][]string{"leaders": {"voters"}, "followers": {"voters"}, "learners": {"learners"}, "pendingPeers": {"voters", "learners"}}
-	covers := map[string][]string{"GetPeers": {"voters", "learners"}, "GetVoters": {"voters"}, "GetLearners": {"learners"}}
+	covers := map[string][]string{"GetPeers": {"voters", "learners"}, "GetStoreIds": {"voters", "learners"}, "GetVoters": {"voters"}, "GetLearners": {"learners"}}
 	for _, m := range []string{"leaders", "followers", "learners", "pendingPeers"} {
 		f := P.Field("server/core", "RegionsInfo", m)
 		got := map[string]bool{}
@@ -661,8 +661,17 @@ func ruleRegionsInfoDiscipline(c *Ctx) {
 			src := ""
 			for b := range l.blocks {
 				for _, ins := range b.Instrs {
-					if ia, ok := ins.(*ssa.IndexAddr); ok {
-						if cl, _ := callOf(ia.X); cl != nil && cl.Call.StaticCallee() != nil {
+					var coll ssa.Value
+					switch x := ins.(type) {
+					case *ssa.IndexAddr:
+						coll = x.X
+					case *ssa.Next: // range over a map (the set of store ids)
+						if rg, ok := x.Iter.(*ssa.Range); ok {
+							coll = rg.X
+						}
+					}
+					if coll != nil {
+						if cl, _ := callOf(coll); cl != nil && cl.Call.StaticCallee() != nil {
 							if _, known := covers[cl.Call.StaticCallee().Name()]; known {
 								src = cl.Call.StaticCallee().Name()
 							}
